@@ -17,7 +17,7 @@ RULE = ("revolute / prismatic unit twists in 3D (axis direction x length 1e-3..1
         "of the axis fixed by exp(theta S), rotation = reference Rodrigues(unit axis, theta), prismatic = translation "
         "theta*unit direction, pitch/pole/line/theta()/isprismatic, se(n) form, inverse and scalar multiples consistent "
         "with exp.  Non-trivial: axis not a coordinate axis, q != 0, theta != 0.")
-RULE = RULE + probes.RULE_TEXT + (probes.AUG_TEXT if PROPERTY_ID in probes.AUG_PROPS else "") + probes.VARIANT_TEXT + probes.OWN_TEXT
+RULE = RULE + probes.RULE_TEXT + (probes.AUG_TEXT if PROPERTY_ID in probes.AUG_PROPS else "") + probes.VARIANT_TEXT + probes.OWN_TEXT + probes.EXTRA_RULES.get(PROPERTY_ID, "")
 ASSUMPTIONS = ["tolerance 1e-9*max(1,|q|)", "pitch argument of Revolute, isrevolute and isunit are not in the statement"]
 
 TWO_PI = 2 * math.pi
